@@ -61,6 +61,21 @@ def c09(tier):
     extra["lib/shared/lib.ak"] = ("use aiken/builtin\n\nfn weigh(bs: ByteArray) -> Int {\n  builtin.length_of_bytearray(bs)\n}\n\nfn total(xs: List<ByteArray>) -> Int {\n  when xs is {\n    [] -> 0\n    [x, ..rest] -> weigh(x) + total(rest)\n  }\n}\n\n"
                                   "pub fn ping(n: Int, xs: List<ByteArray>) -> Int {\n  if n <= 0 {\n    total(xs) + weigh(#\"00\")\n  } else {\n    pong(n - 1, xs) + weigh(#\"0102\")\n  }\n}\n\n"
                                   "pub fn pong(n: Int, xs: List<ByteArray>) -> Int {\n  if n <= 0 {\n    weigh(#\"03\") - total(xs)\n  } else {\n    ping(n - 1, xs) + total([#\"04\"])\n  }\n}\n")
+    # public types of library modules (exported with --include-all-types): pairs alone and inside lists, in different modules
+    extra["lib/shared/pairs_a.ak"] = "pub type Entry {\n  key: Pair<ByteArray, Int>,\n  note: ByteArray,\n}\n"
+    extra["lib/shared/pairs_b.ak"] = "pub type Ledger {\n  rows: List<Pair<ByteArray, Int>>,\n  total: Int,\n}\n"
+    extra["lib/shared/pairs_c.ak"] = "pub type Book {\n  pages: List<Pair<Int, List<Pair<ByteArray, Int>>>>,\n  first: Pair<Int, Int>,\n}\n"
+    all_types = []
+    for run in range(4):
+        cases = [{"id": i, "dir": os.path.join(vlib.WORK, "bp", "c09_%d_all_%d_%d" % (os.getpid(), run, i)), "src": vsrc, "ops": [], "extra_files": extra, "all_types": True}
+                 for i in range(3 if tier == "quick" else 6)]
+        for o in vlib.run_harness("blueprint_ops", stdin_lines=cases):
+            if o.get("build") != "ok":
+                raise vlib.ToolError("C09: project does not build with all types exported: %s" % json.dumps(o.get("build"))[:500])
+            all_types.append(json.dumps(o["blueprint"], sort_keys=False))
+    if len(set(all_types)) != 1:
+        rep.violation("blueprint-all-types-nondeterminism", {"distinct": len(set(all_types)), "sha": sorted(set(hashlib.sha256(b.encode()).hexdigest()[:12] for b in all_types))},
+                      "building the same sources %d times with every type exported produced %d different blueprints" % (len(all_types), len(set(all_types))))
     blueprints = []
     for run, env in enumerate([{}, {}, {"RAYON_NUM_THREADS": "1"}, {"RAYON_NUM_THREADS": "4"}, {"RAYON_NUM_THREADS": "16"}]):
         cases = [{"id": i, "dir": os.path.join(vlib.WORK, "bp", "c09_%d_%d_%d" % (os.getpid(), run, i)), "src": vsrc, "ops": [], "extra_files": extra, "verbose": True}
